@@ -3,6 +3,7 @@ package rules
 import (
 	"fmt"
 	"go/ast"
+	"go/token"
 	"go/types"
 	"strings"
 
@@ -221,4 +222,77 @@ func ruleIKLookupColumns(c *core.Ctx) {
 		c.Check(ok, "SQLS/ik-lookup", declKey(d)+":columns", pos(c, d.Decl), "selects * (or at least the stored idempotency hash and the log's content)", "the idempotency-key lookup does not read idempotency_hash and the log content: a key reused with a different input is no longer refused (the stored hash looks empty), or the replayed answer is incomplete")
 	}
 	c.Floor("SQLS/ik-lookup", "select statements in ReadLogWithIdempotencyKey", n, 1)
+}
+
+// ruleScriptTextDeterministic (DET): the Numscript text TxToScriptData produces for a postings
+// request is part of the input the idempotency hash is computed on (and of the stored log). It
+// must be the same text for the same request: nothing order-sensitive may be done while ranging
+// over a map, unless what is collected is sorted before it is used.
+func ruleScriptTextDeterministic(c *core.Ctx) {
+	d := fn(c, pkgCtrl, "", "TxToScriptData")
+	if d == nil {
+		return
+	}
+	info := d.Pkg.TypesInfo
+	key := declKey(d)
+	n := 0
+	ast.Inspect(d.Decl.Body, func(x ast.Node) bool {
+		rs, ok := x.(*ast.RangeStmt)
+		if !ok {
+			return true
+		}
+		t := info.TypeOf(rs.X)
+		if t == nil {
+			return true
+		}
+		if _, isMap := t.Underlying().(*types.Map); !isMap {
+			return true
+		}
+		n++
+		rkey := fmt.Sprintf("%s:range-over-map#%d", key, n)
+		var bad []string
+		ast.Inspect(rs.Body, func(y ast.Node) bool {
+			switch v := y.(type) {
+			case *ast.CallExpr:
+				if f := astx.Callee(info, v); f != nil {
+					switch f.Name() {
+					case "WriteString", "WriteByte", "WriteRune", "Write", "Fprintf", "Fprint", "Fprintln":
+						bad = append(bad, "writes to the output ("+f.Name()+")")
+					}
+				}
+			case *ast.AssignStmt:
+				if v.Tok == token.ADD_ASSIGN {
+					if tt := info.TypeOf(v.Lhs[0]); tt != nil {
+						if b, isB := tt.Underlying().(*types.Basic); isB && b.Info()&types.IsString != 0 {
+							bad = append(bad, "concatenates onto a string")
+						}
+					}
+				}
+				if len(v.Lhs) == 1 && len(v.Rhs) == 1 {
+					if call, isCall := v.Rhs[0].(*ast.CallExpr); isCall {
+						if id, isID := call.Fun.(*ast.Ident); isID && id.Name == "append" {
+							if l, isL := v.Lhs[0].(*ast.Ident); isL {
+								obj := info.ObjectOf(l)
+								sorted := false
+								for _, sc := range callsTo(info, d.Decl.Body, func(f *types.Func) bool {
+									return f.Pkg() != nil && (f.Pkg().Path() == "sort" || f.Pkg().Path() == "slices") && (strings.HasPrefix(f.Name(), "Sort") || f.Name() == "Strings" || f.Name() == "Slice" || f.Name() == "SliceStable" || f.Name() == "Ints")
+								}) {
+									if sc.Pos() > rs.End() && len(sc.Args) >= 1 && usesObj(info, sc.Args[0], obj) {
+										sorted = true
+									}
+								}
+								if !sorted {
+									bad = append(bad, "appends to "+l.Name+", which is not sorted afterwards")
+								}
+							}
+						}
+					}
+				}
+			}
+			return true
+		})
+		c.Check(len(bad) == 0, "DET/script-text", rkey, pos(c, rs), "map iteration only fills maps or collects values that are sorted before use", "while ranging over a map TxToScriptData "+strings.Join(bad, "; ")+": the generated script text — and with it the idempotency hash of the same postings request — changes from one call to the next, so an identical replay is rejected as a different input")
+		return true
+	})
+	c.Floor("DET/script-text", "ranges over maps in TxToScriptData", n, 2)
 }
